@@ -45,6 +45,32 @@ func compileReal(texts map[string]string, pkg string) (res compiled) {
 	return res
 }
 
+// acceptsAll reports whether the real compiler accepts every package of the bundle (okPkg is the
+// known answer for pkg).
+func acceptsAll(b *j5sgen.Bundle, texts map[string]string, pkg string, okPkg bool) bool {
+	if !okPkg {
+		return false
+	}
+	for _, p := range b.Packages() {
+		if p == pkg {
+			continue
+		}
+		hasSource := false
+		for _, f := range b.Files {
+			if f.Package() == p {
+				hasSource = true
+			}
+		}
+		if !hasSource {
+			continue
+		}
+		if got := compileReal(texts, p); !got.ok {
+			return false
+		}
+	}
+	return true
+}
+
 func filesCoq(fs []*DFile) string {
 	var items []string
 	for _, f := range fs {
@@ -88,7 +114,7 @@ func runC02(cfg *vh.Config) error {
 		Type:   "c02case",
 		Check:  "c02_check",
 	}
-	n := cfg.Scale(300, 3000)
+	n := cfg.Scale(250, 2400)
 	distinct := vh.Distinct{}
 	const perShard = 40
 	stats := map[string]int{}
@@ -140,15 +166,20 @@ func runC02(cfg *vh.Config) error {
 				res.Fail(vh.Failure{Case: i, Stream: stream, Sig: v.Sig, Clause: v.Clause, Input: in, Got: v.Got, Want: v.Want})
 			}
 		}
-		cf.Terms = append(cf.Terms, fmt.Sprintf("CCompile\n   %s\n   %s %s\n   %s", b.Coq(), j5sgen.S(pkg), vh.BoolTerm(got.ok), filesCoq(got.files)))
-		res.Cases = append(res.Cases, vh.CaseRec{Case: i, Stream: stream, Input: in, Impl: map[string]any{"ok": got.ok, "err": got.err, "files": got.all}})
+		okall := acceptsAll(b, texts, pkg, got.ok)
+		if okall {
+			res.Count("accepted_all_packages")
+		}
+		exact := !(i < len(corpus) && corpus[i].Outside)
+		cf.Terms = append(cf.Terms, fmt.Sprintf("CCompileV\n   %s\n   %s %s %s %s\n   %s", b.Coq(), j5sgen.S(pkg), vh.BoolTerm(got.ok), vh.BoolTerm(okall), vh.BoolTerm(exact), filesCoq(got.files)))
+		res.Cases = append(res.Cases, vh.CaseRec{Case: i, Stream: stream, Input: in, Impl: map[string]any{"ok": got.ok, "ok_all_packages": okall, "err": got.err, "files": got.all}})
 		if len(texts) == 1 && i >= len(corpus) {
 			res.Sample(in, 3)
 		}
 	}
 	// ---- malformed stream: a valid bundle broken in one place must be rejected, by the compiler
 	// (with an error, not a panic) and by the model
-	nBad := cfg.Scale(60, 600)
+	nBad := cfg.Scale(60, 500)
 	for i := 0; i < nBad; i++ {
 		r := cfg.R.Fork(fmt.Sprintf("c02-bad-%d", i))
 		gcfg := j5sgen.DefaultConfig()
@@ -174,8 +205,9 @@ func runC02(cfg *vh.Config) error {
 		if got.ok {
 			res.Count("malformed_accepted")
 		}
-		cf.Terms = append(cf.Terms, fmt.Sprintf("CCompile\n   %s\n   %s %s\n   %s", b.Coq(), j5sgen.S(pkg), vh.BoolTerm(got.ok), filesCoq(got.files)))
-		res.Cases = append(res.Cases, vh.CaseRec{Case: caseNo, Stream: "malformed: " + what, Input: in, Impl: map[string]any{"ok": got.ok, "err": got.err}})
+		okall := acceptsAll(b, texts, pkg, got.ok)
+		cf.Terms = append(cf.Terms, fmt.Sprintf("CCompileV\n   %s\n   %s %s %s true\n   %s", b.Coq(), j5sgen.S(pkg), vh.BoolTerm(got.ok), vh.BoolTerm(okall), filesCoq(got.files)))
+		res.Cases = append(res.Cases, vh.CaseRec{Case: caseNo, Stream: "malformed: " + what, Input: in, Impl: map[string]any{"ok": got.ok, "ok_all_packages": okall, "err": got.err}})
 	}
 	for k, v := range stats {
 		res.Distribution["gen_"+k] = v
